@@ -30,8 +30,15 @@ Inductive action :=
 | ASetEnabled (b : bool)         (* d.dispatch_enabled = b *)
 | AClear                         (* d.clear() *)
 | ARaise                         (* raise ScriptError *)
-| ADrop (h : hid).               (* the program drops its only strong reference to h
-                                    (no-op when h is gone or is a receiver on the call stack) *)
+| ADrop (h : hid)                (* the program drops its only strong reference to h (no-op when h is gone,
+                                    is a receiver on the call stack, or is held by a postponed on_add) *)
+(* World only, handlers that are components ("controllers"); the harness skips them (ESkip)
+   when their precondition does not hold *)
+| ACreate (h : hid)              (* while disabled: world.create_entity(h); the World row becomes the holder *)
+| ARemoveC (h : hid)             (* world.remove_component / delete_entity of h's row: unless a postponed
+                                    on_add still holds it, h dies at once (skipped when h is on the call
+                                    stack, or is held by a postponed on_add while any callback runs) *)
+| AReplace (h h2 : hid).         (* while disabled: world.add_component(entity of h, h2): h2 replaces h *)
 
 (* One entry of the implementation's log. *)
 Inductive entry :=
@@ -40,7 +47,8 @@ Inductive entry :=
 | ECall (h : hid) (m : meth) (t : tok) (a : argc) (* method m entered, receiver h (-1: None), token and arg shape received *)
 | ERet                                          (* the callback returned *)
 | EEnd (t : tok)                                (* the dispatch made while enabled / the enabling assignment t returned normally *)
-| EExc.                                         (* the top level caught ScriptError *)
+| EExc                                          (* the top level caught ScriptError *)
+| ESkip.                                        (* the harness skipped the next (World component) action *)
 
 Definition action_eqb (a b : action) : bool :=
   match a, b with
@@ -52,6 +60,9 @@ Definition action_eqb (a b : action) : bool :=
   | AClear, AClear => true
   | ARaise, ARaise => true
   | ADrop h, ADrop h' => h =? h'
+  | ACreate h, ACreate h' => h =? h'
+  | ARemoveC h, ARemoveC h' => h =? h'
+  | AReplace h g, AReplace h' g' => (h =? h') && (g =? g')
   | _, _ => false
   end.
 
@@ -110,13 +121,23 @@ Definition inb (h : hid) (l : list hid) : bool := existsb (Z.eqb h) l.
 (* listener when it is dispatched is kept as *optional*: the property   *)
 (* leaves open whether it is delivered later (the code queues it iff    *)
 (* the name was ever registered since the last clear()).                *)
-Record qent := { q_tok : tok; q_ev : ev; q_arg : argc; q_opt : bool }.
+Record qent := { q_tok : tok; q_ev : ev; q_arg : argc; q_opt : bool;
+                 q_dir : option (hid * meth) }.
+(* q_dir = Some (h, m): a postponed on_add of a World component (the relay
+   World queues for itself through on_single_dispatch): delivered to h's
+   method m directly, whatever is registered then.  The entry holds h. *)
+Definition on_add_ev : ev := 90.        (* the harness's number for the event name 'on_add' *)
+Definition relay_arg : argc := 99.      (* code of the arguments (entity, world) *)
+
+(* whom the entry is delivered to, given the listeners of each name *)
+Definition targets (lis : ev -> list (hid * meth)) (x : qent) : list (hid * meth) :=
+  match q_dir x with Some hm => [hm] | None => lis (q_ev x) end.
 
 Definition isnil {A} (l : list A) : bool := match l with [] => true | _ => false end.
 
 (* can the release pass over this entry without any call? *)
 Definition skippable (lis : ev -> list (hid * meth)) (x : qent) : bool :=
-  q_opt x || isnil (lis (q_ev x)).
+  q_opt x || isnil (targets lis x).
 
 (* next queue entry to deliver is the one with token t: everything before it
    must be skippable.  Structural recursion on the queue: the release loop
@@ -172,6 +193,31 @@ Definition all_gone (g : list hid) (rem : list (hid * meth)) : bool :=
 Definition cur_done (g : list hid) (cur : option delivery) : bool :=
   match cur with None => true | Some (_, _, rem) => all_gone g rem end.
 
+(* a postponed on_add keeps its component alive *)
+Definition relay_holds (h : hid) (q : list qent) : bool :=
+  existsb (fun x => match q_dir x with Some hm => fst hm =? h | None => false end) q.
+
+(* World queues the relay only for a component whose class handles 'on_add' *)
+Definition relay (p : params) (t : tok) (h : hid) : list qent :=
+  match alookup on_add_ev (events_of p h) with
+  | Some m => [{| q_tok := t; q_ev := on_add_ev; q_arg := relay_arg; q_opt := false; q_dir := Some (h, m) |}]
+  | None => []
+  end.
+
+Fixpoint in_callback (stk : list frame) : bool :=
+  match stk with
+  | [] => false
+  | FScript (Some _) _ :: _ => true
+  | _ :: stk => in_callback stk
+  end.
+
+(* the harness never lets a component leave its row in these situations (ESkip) *)
+Definition leave_blocked (h : hid) (s : mstate) (stk : list frame) : bool :=
+  inb h (gone s) || onstack h stk || (relay_holds h (queue s) && in_callback stk).
+
+Definition skippable_action (a : action) : bool :=
+  match a with ACreate _ | ARemoveC _ | AReplace _ _ => true | _ => false end.
+
 Definition do_action (p : params) (s : mstate) (a : action) (o : option hid) (rest : list action)
                      (stk : list frame) : option mstate :=
   let k := keyf p in
@@ -195,7 +241,7 @@ Definition do_action (p : params) (s : mstate) (a : action) (o : option hid) (re
       else
         Some {| tabs := tabs s; enabled := false;
                 queue := queue s ++ [{| q_tok := t; q_ev := e; q_arg := x;
-                                        q_opt := isnil (look (t_events (tabs s)) e) |}];
+                                        q_opt := isnil (look (t_events (tabs s)) e); q_dir := None |}];
                 gone := gone s; next := t + 1; exc := false; stack := here |}
   | ASetEnabled false =>
       Some {| tabs := tabs s; enabled := false; queue := queue s; gone := gone s; next := next s;
@@ -217,10 +263,30 @@ Definition do_action (p : params) (s : mstate) (a : action) (o : option hid) (re
       | _ => None
       end
   | ADrop h =>
-      if inb h (gone s) || onstack h here then Some (upd_stack s here) else
+      if inb h (gone s) || onstack h here || relay_holds h (queue s) then Some (upd_stack s here) else
       (* the object dies at once; its weak reference callback unregisters it *)
       Some {| tabs := remove_handler k h (tabs s); enabled := enabled s; queue := queue s;
               gone := h :: gone s; next := next s; exc := false; stack := here |}
+  | ACreate h =>
+      (* create_entity: add_handler, and - dispatching being disabled - the on_add is postponed *)
+      if enabled s || inb h (gone s) then None else
+      Some {| tabs := add_handler k (events_of p h) h (tabs s); enabled := false;
+              queue := queue s ++ relay p (next s) h; gone := gone s; next := next s + 1;
+              exc := false; stack := here |}
+  | ARemoveC h =>
+      (* remove_component / delete_entity: remove_handler; the row lets go of h, which
+         dies unless its postponed on_add holds it *)
+      if leave_blocked h s here then None else
+      Some {| tabs := remove_handler k h (tabs s); enabled := enabled s; queue := queue s;
+              gone := if relay_holds h (queue s) then gone s else h :: gone s;
+              next := next s; exc := false; stack := here |}
+  | AReplace h h2 =>
+      (* add_component over an occupied slot: remove_component of h, then as create *)
+      if enabled s || inb h2 (gone s) || (h =? h2) || leave_blocked h s here then None else
+      Some {| tabs := add_handler k (events_of p h2) h2 (remove_handler k h (tabs s)); enabled := false;
+              queue := queue s ++ relay p (next s) h2;
+              gone := if relay_holds h (queue s) then gone s else h :: gone s; next := next s + 1;
+              exc := false; stack := here |}
   end.
 
 (* a callback of delivery (t, x, rem) is entered *)
@@ -260,7 +326,7 @@ Definition step (p : params) (s : mstate) (e : entry) : option mstate :=
           if enabled s && cur_done (gone s) cur then
             match seek (look (t_events (tabs s))) t (queue s) with
             | Some (q, qrest) =>
-                match call p (gone s) (q_tok q, q_arg q, look (t_events (tabs s)) (q_ev q)) h m t x with
+                match call p (gone s) (q_tok q, q_arg q, targets (look (t_events (tabs s))) q) h m t x with
                 | Some (d', f) =>
                     Some {| tabs := tabs s; enabled := true; queue := qrest; gone := gone s;
                             next := next s; exc := false; stack := f :: FRel r (Some d') :: stk |}
@@ -270,6 +336,8 @@ Definition step (p : params) (s : mstate) (e : entry) : option mstate :=
             end
           else None
       end
+  | ESkip, FScript o (a' :: rest) :: stk =>
+      if skippable_action a' then Some (upd_stack s (FScript o rest :: stk)) else None
   | ERet, FScript (Some _) [] :: stk => Some (upd_stack s stk)
   | EEnd t, FDisp (t', _, rem) :: stk =>
       if (t =? t') && all_gone (gone s) rem then Some (upd_stack s stk) else None
